@@ -460,6 +460,7 @@ Section Ser.
     | VDict kv => len kv <= MAXA /\ fold_right (fun p P => wf (fst p) /\ wf (snd p) /\ P) True kv
     | VObj t fs =>
         tid_ok t = true /\ (exists defs, reg_find reg t = Some (CObj defs) /\ length defs = length fs)
+        /\ len fs < 2 ^ 63     (* the field count is written by serialize_int *)
         /\ fold_right (fun x P => wf x /\ P) True fs
     | VEnum t x =>
         tid_ok t = true /\ (exists ms, reg_find reg t = Some (CEnum ms) /\ mem_py x ms = SOk true)
